@@ -1106,7 +1106,7 @@ static const uint8_t *unmarshal_one_fiber(
     JanetTable *fiber_env = NULL;
 
     /* Check for bad flags and ints */
-    if ((int32_t)(frame + JANET_FRAME_SIZE) > fiber_stackstart ||
+    if (frame > fiber_stackstart - JANET_FRAME_SIZE ||
             fiber_stackstart > fiber_stacktop ||
             fiber_stacktop > fiber_maxstack) {
         janet_panic("fiber has incorrect stack setup");
@@ -1143,6 +1143,11 @@ static const uint8_t *unmarshal_one_fiber(
         int32_t prevframe = readnat(st, &data);
         int32_t pcdiff = readnat(st, &data);
 
+        /* The frame header sits in the JANET_FRAME_SIZE slots below the frame */
+        if (stack < JANET_FRAME_SIZE) {
+            janet_panic("fiber stackframe does not align with previous frame");
+        }
+
         /* Get frame items */
         Janet *framestack = fiber->data + stack;
         JanetStackFrame *framep = janet_stack_frame(framestack);
@@ -1153,6 +1158,10 @@ static const uint8_t *unmarshal_one_fiber(
         janet_asserttype(funcv, JANET_FUNCTION, st);
         func = janet_unwrap_function(funcv);
         def = func->def;
+        if (NULL == def) {
+            /* A reference to a function that is still being unmarshalled */
+            janet_panic("fiber stackframe has incomplete function");
+        }
 
         /* Check env */
         if (frameflags & JANET_STACKFRAME_HASENV) {
@@ -1168,8 +1177,24 @@ static const uint8_t *unmarshal_one_fiber(
         if (pcdiff >= def->bytecode_length) {
             janet_panic("fiber stackframe has invalid pc");
         }
-        if ((int32_t)(prevframe + JANET_FRAME_SIZE) > stack) {
+        /* When a frame is continued - the top frame by resume unless the fiber asks
+         * not to skip, every other frame when its callee returns - the instruction at
+         * pc receives a value in its A operand and execution goes on at pc + 1. So
+         * there must be a next instruction, and A must be a verified slot, which
+         * it is for all instruction types but the two without a slot operand.
+         * Fibers that can never run again keep whatever pc they stopped at. */
+        if (fiber_resumable && (stack != frame || !(fiber_flags & JANET_FIBER_RESUME_NO_SKIP))) {
+            enum JanetInstructionType itype = janet_instructions[def->bytecode[pcdiff] & 0x7F];
+            if (pcdiff + 1 >= def->bytecode_length || itype == JINT_0 || itype == JINT_L) {
+                janet_panic("fiber stackframe has invalid pc");
+            }
+        }
+        if (prevframe > stack - JANET_FRAME_SIZE) {
             janet_panic("fiber stackframe does not align with previous frame");
+        }
+        /* Returning from the outermost frame must leave the interpreter */
+        if (prevframe == 0 && !(frameflags & JANET_STACKFRAME_ENTRANCE)) {
+            janet_panic("fiber outermost stackframe is not an entrance frame");
         }
 
         /* Get stack items */
